@@ -20,6 +20,7 @@ import (
 	"errors"
 	"fmt"
 	"os"
+	"strings"
 )
 
 import (
@@ -141,6 +142,8 @@ func HostRuleConfLoad(filename string) (HostConf, error) {
 
 	for hostTag, hostnameList := range *config.Hosts {
 		for _, hostName := range *hostnameList {
+			// host name is case-insensitive
+			hostName = strings.ToLower(hostName)
 			if host2HostTag[hostName] != "" {
 				return conf, fmt.Errorf("host duplicate for %s", hostName)
 			}
@@ -153,6 +156,9 @@ func HostRuleConfLoad(filename string) (HostConf, error) {
 
 	for product, hostTagList := range *config.HostTags {
 		for _, hostTag := range *hostTagList {
+			if _, ok := hostTag2Product[hostTag]; ok {
+				return conf, fmt.Errorf("hostTag duplicate for %s", hostTag)
+			}
 			hostTag2Product[hostTag] = product
 		}
 	}
